@@ -43,7 +43,7 @@ INT_LITS = [
     "(int)sizeof(int)", "(int)sizeof(struct S)",
 ]  # fmt: skip
 INT_LITS11 = ["(int)_Alignof(double)", "u'a'", "U'b'", "(int)_Alignof(struct S)"]
-DBL_LITS = ["1.0", "2.5f", ".5", "1e2", "0x1p3", "3.L", "1.e-1", "0x1.8p1f", "2E+1F", "7.l"]
+DBL_LITS = ["1.0", "2.5f", ".5", "1e2", "0x1p3", "3.L", "1.e-1", "0x1.8p1f", "2E+1F", "7.l", "08.5", "09e1", "0079.25f", "00.9L"]
 
 
 class SG:
@@ -96,7 +96,7 @@ class SG:
                 wrap = True
         return "(" + text + ")" if wrap else text
 
-    STR_BODIES = ["s", "t", "a b", "%d\\n", "\\x41", "\\101", "\\0", "\\1", "\\\\", "\\\"q", "1", "f", "9g", "", "\\x1", "\\t2"]
+    STR_BODIES = ["s", "t", "a b", "%d\\n", "\\x41", "\\101", "\\0", "\\1", "\\\\", "\\\"q", "1", "f", "9g", "", "\\x1", "\\t2", "\\\"", "say \\\"", "\\\\\\\""]
 
     def strlit(self):
         """1-3 adjacent plain string literals.  A piece ending in a hex escape (or
